@@ -92,7 +92,7 @@ def b_planets(rng, tier, k=0, n=1):
 
 
 @P.bounded_check("pluto-and-minor-bodies/direction", grid="Pluto 1885-01-01 .. 2099-12-31 incl. both ends, every 300 d (quick) / 30 d (thorough); minor bodies "
-                 "q in {0.1, 0.5, 1, 3, 10, 30}, e in {0, .3, .7, .9, .97, .9799, .98, .99, 1-1e-11, 1.0}, 3 orientations, "
+                 "q in {0.1, 0.5, 1, 3, 10, 30}, e in {0, .3, .7, .9, .97, .9799, .98, .99, 1-1e-11, 1.0}, 10 orientations (8 fixed incl. the quadrant changes of the orbit constants, 2 seeded), "
                  "times within +-50 yr of perihelion")
 def b_small(rng, tier):
     from pymeeus.Epoch import Epoch
@@ -149,7 +149,12 @@ def b_small(rng, tier):
         return a * (1 - ecc * math.cos(Ee)), v
     qs = (0.1, 0.5, 1.0, 3.0, 10.0, 30.0)
     es = (0.0, 0.3, 0.7, 0.9, 0.97, 0.9799, 0.98, 0.99, 1.0 - 1e-11, 1.0)
-    orient = ((10.0, 30.0, 50.0), (120.0, 200.0, 300.0), (162.0, 58.0, 111.0))
+    # orientations (inclination, node, argument of perihelion): prograde, high and retrograde ones, the octants in which the
+    # equatorial constants of the orbit change quadrant (low inclination with the node near 180 deg, retrograde with the node near
+    # 0), an orbit in the ecliptic, and two seeded ones
+    orient = ((10.0, 30.0, 50.0), (120.0, 200.0, 300.0), (162.0, 58.0, 111.0), (5.0, 180.0, 20.0), (15.0, 230.0, 250.0),
+              (170.0, 5.0, 140.0), (0.0, 0.0, 77.0), (89.9, 90.0, 0.0),
+              (rng.uniform(0, 180), rng.uniform(0, 360), rng.uniform(0, 360)), (rng.uniform(0, 25), rng.uniform(110, 250), rng.uniform(0, 360)))
     reps = 4 if tier == "thorough" else 1
     for q in qs:
         for ecc in es:
